@@ -602,6 +602,25 @@ class Repo:
             body = node.body
         return node if isinstance(node, ast.FunctionDef) else None
 
+    def hyperscan_converter(self) -> Optional[ast.FunctionDef]:
+        """the function that rewrites each extractor pattern for Hyperscan: the callee X of `[X(e.regex) for e in self.extractors]` in
+        HyperscanTokenizer.hyperscan_db -- a nested def, a module-level function or a (static) method, whatever its name"""
+        db = self.func("tokenizers.HyperscanTokenizer.hyperscan_db")
+        if db is None:
+            return None
+        for n in ast.walk(db):
+            if isinstance(n, (ast.ListComp, ast.GeneratorExp)) and isinstance(n.elt, ast.Call) and len(n.elt.args) == 1 \
+                    and isinstance(n.elt.args[0], ast.Attribute) and n.elt.args[0].attr == "regex":
+                f = n.elt.func
+                name = f.id if isinstance(f, ast.Name) else f.attr if isinstance(f, ast.Attribute) else None
+                if name is None:
+                    continue
+                for x in ast.walk(db):
+                    if isinstance(x, ast.FunctionDef) and x.name == name and x is not db:
+                        return x
+                return self.func(f"tokenizers.{name}") or self.func(f"tokenizers.HyperscanTokenizer.{name}")
+        return None
+
     def need_func(self, qual: str) -> ast.FunctionDef:
         f = self.func(qual)
         if f is None:
